@@ -167,16 +167,10 @@ def _in_domain(case):
 
 
 def _validator_applies(case):
-    """the library's validator is one more observable where it can speak: not for a file with a user block (it takes
-    it for JSON and crashes: reported for C15) and not for a time-zone aware creation date (its ISO 8601 patterns have
-    no offset)"""
-    import datetime
-    if case.get('userblock'):
-        return False
-    try:
-        return (not U.dated(case)) or datetime.datetime.fromisoformat(case['date']).tzinfo is None
-    except ValueError:
-        return False
+    """the library's validator is one more observable for every file (user-block files: F46, time-zone aware
+    creation dates: F47, both repaired); it only needs a vocabulary type and a populated generated-by, which
+    _decoded checks on the file itself"""
+    return True
 
 
 def _date_seen(text, masked):
